@@ -171,7 +171,49 @@ func Load(repo, goos, goarch string, tags string) (*Prog, error) {
 		}
 		return a.String() < b.String()
 	})
+	for _, fn := range p.allFns {
+		unspillReturns(fn)
+	}
 	return p, nil
+}
+
+// unspillReturns undoes go/ssa's result spilling in functions that contain a defer: there every `return v, w` is
+// lowered to `*r0 = v; *r1 = w; rundefers; t0 = *r0; t1 = *r1; return t0, t1` with r0, r1 stack-local slots. The
+// slots are `local` (not heap) allocations, so no deferred closure can change them between the store and the
+// reload; the Return's operands are replaced, in this in-memory copy, by the stored values so that every rule sees
+// the same return shape whether or not the function has a defer.
+func unspillReturns(fn *ssa.Function) {
+	for _, b := range fn.Blocks {
+		if len(b.Instrs) == 0 || b == fn.Recover {
+			continue
+		}
+		ret, ok := b.Instrs[len(b.Instrs)-1].(*ssa.Return)
+		if !ok {
+			continue
+		}
+		for i, v := range ret.Results {
+			u, ok := v.(*ssa.UnOp)
+			if !ok || u.Op != token.MUL || u.Block() != b {
+				continue
+			}
+			a, ok := u.X.(*ssa.Alloc)
+			if !ok || a.Heap {
+				continue
+			}
+			var val ssa.Value
+			for _, in := range b.Instrs {
+				if in == ssa.Instruction(u) {
+					break
+				}
+				if st, ok := in.(*ssa.Store); ok && st.Addr == ssa.Value(a) {
+					val = st.Val
+				}
+			}
+			if val != nil {
+				ret.Results[i] = val
+			}
+		}
+	}
 }
 
 // Fn returns the module function with the given key, e.g. "p9p:(*channel).ReadFcall",
